@@ -29,7 +29,19 @@ func bindingsFor(r *rand.Rand) []binding {
 	if r.Intn(2) == 0 {
 		secs, nanos = -secs, -nanos
 	}
+	// a time.Time by its UTC civil fields: the zero Time, the ends of the year range, the ends of what fits
+	// nanoseconds-since-1970 in an int64 (1677-09-21 / 2262-04-11), instants before 1970 with a sub-second part
+	civ := [][7]int{{1, 1, 1, 0, 0, 0, 0}, {9999, 12, 31, 23, 59, 59, 999999999}, {1677, 9, 21, 0, 12, 43, 145224192}, {1677, 9, 20, 12, 0, 0, 0},
+		{2262, 4, 11, 23, 47, 16, 854775807}, {2262, 4, 12, 0, 0, 0, 1}, {1969, 12, 31, 23, 59, 59, 500000000}, {1900, 1, 1, 0, 0, 0, 1},
+		{2038, 1, 19, 3, 14, 8, 0}, {1970, 1, 1, 0, 0, 0, 0}, {1 + r.Intn(9999), 1 + r.Intn(12), 1 + r.Intn(28), r.Intn(24), r.Intn(60), r.Intn(60), r.Intn(1000000000)}}[r.Intn(11)]
+	ct := time.Date(civ[0], time.Month(civ[1]), civ[2], civ[3], civ[4], civ[5], civ[6], time.UTC)
+	if civ == [7]int{1, 1, 1, 0, 0, 0, 0} {
+		ct = time.Time{}
+	} else if r.Intn(3) == 0 {
+		ct = ct.In(time.FixedZone("x", []int{9 * 3600, -5 * 3600, 1800}[r.Intn(3)])) // the same instant in another location
+	}
 	return []binding{
+		{"time_civil", []interface{}{civ[0], civ[1], civ[2], civ[3], civ[4], civ[5]}, ct},
 		{"duration_sn", []interface{}{secs, nanos}, time.Duration(secs)*time.Second + time.Duration(nanos)},
 		{"int", 7, int(7)}, {"int8", -8, int8(-8)}, {"int16", 300, int16(300)}, {"int32", -70000, int32(-70000)},
 		{"int64", 123456, int64(123456)}, {"uint8", 200, uint8(200)}, {"uint16", 65535, uint16(65535)},
